@@ -159,6 +159,17 @@ def T_composite(rng, v=0):
     p = PEP()
     f1 = p.declare_function(SmoothStronglyConvexFunction, mu=mu, L=L)
     f2 = p.declare_function(ConvexFunction)
+    if v % 3 == 2:
+        # a sum whose last addition brings several new leaf functions at once, evaluated directly through the sum
+        from PEPit.functions import SmoothConvexFunction
+        gs = [p.declare_function(SmoothConvexFunction, L=L) for _ in range(4)]
+        F = f1 + (gs[0] + gs[1] + gs[2] + gs[3])
+        xs = F.stationary_point()
+        x0 = p.set_initial_point()
+        p.set_initial_condition((x0 - xs) ** 2 <= 1)
+        x1 = x0 - gamma / 5 * F.gradient(x0)
+        p.set_performance_metric(F(x1) - F(xs))
+        return p, dict(points=[x0, x1, xs], exprs=[(x1 - xs) ** 2], funcs=[f1] + gs + [F])
     F = f1 + f2
     xs = F.stationary_point()
     x0 = p.set_initial_point()
